@@ -328,3 +328,75 @@ func dedupeRaces(blocks []string) []string {
 	}
 	return out
 }
+
+var framingRules = map[string]bool{"short-response": true, "stray-bytes": true, "desync": true, "unexpected-close": true,
+	"no-response": true, "not-closed": true, "result-code": true, "closefile": true}
+
+func opIn(op wire.Op, ops ...wire.Op) bool {
+	for _, o := range ops {
+		if op == o {
+			return true
+		}
+	}
+	return false
+}
+
+// inScope tells whether a failure of the shared wire reference model is a violation of the property
+// the running check decides. The model judges every answer; a check only claims the part of it that
+// its own property states, so that a defect belonging to another property is left to that property's
+// check (it is counted in the evidence as "other_property_failures_not_judged").
+func inScope(prop string, f *model.Fail, reqs []wire.Req, failAt int) bool {
+	idx := failAt
+	if idx >= len(reqs) {
+		idx = len(reqs) - 1 // the fence: attributed to the last request of the session
+	}
+	var op wire.Op
+	if idx >= 0 && idx < len(reqs) {
+		op = reqs[idx].Op
+	}
+	rule := f.Rule
+	switch prop {
+	case "C02", "C09", "C11":
+		return opIn(op, wire.OpOpen, wire.OpRead, wire.OpReadCrit) &&
+			(framingRules[rule] || rule == "read-announce" || rule == "wrong-bytes" || rule == "open-size" || rule == "open-truth" || rule == "open-virtual" || rule == "read-nofile")
+	case "C03":
+		if framingRules[rule] || rule == "read-nofile" || rule == "write-nofile" {
+			return true
+		}
+		if rule == "listing" {
+			switch f.Feature {
+			case "end-marker", "empty-name", "no-open-dir", "isdir-byte":
+				return true
+			}
+		}
+		return false
+	case "C05":
+		if opIn(op, wire.OpCreate, wire.OpWrite, wire.OpDelete, wire.OpMkdir, wire.OpRmdir) {
+			return true
+		}
+		switch rule {
+		case "write-gate", "virtual-write", "create-truth", "create-effect", "write-nofile", "write-result", "upload-content", "remove-truth", "remove-root", "mkdir-truth", "mkdir-effect", "collateral-change":
+			return true
+		}
+		return false
+	case "C06":
+		return opIn(op, wire.OpStat, wire.OpOpenDir, wire.OpReadDir, wire.OpRDE, wire.OpRDE2, wire.OpDirSize)
+	case "C17":
+		return opIn(op, wire.OpReadCD, wire.OpOpen)
+	}
+	return true
+}
+
+// judgeModelFail files a model failure under the running property, or counts it as out of scope.
+func judgeModelFail(e *Env, f *model.Fail, reqs []wire.Req, failAt int, rulePrefix, feature, detail string, wit any) {
+	if f.Inconclusive {
+		e.Run.Inconclusive(f.Error())
+		return
+	}
+	if !inScope(e.Prop, f, reqs, failAt) {
+		e.Run.Count("other_property_failures_not_judged", 1)
+		e.Run.Count("not_judged:"+f.Rule, 1)
+		return
+	}
+	e.Run.Violate(rulePrefix+f.Rule, feature, detail, wit)
+}
